@@ -1,4 +1,8 @@
 """C10 documented layout and compatibility (DESIGN.md section 5 C10): constants and roles."""
+import json
+import os
+import a4_twin
+from vlib.core import VERIF
 import layout_rules as L
 import chains
 
@@ -8,6 +12,7 @@ def run(facts, tier):
     for name, f, mn, text in (
         ("constants", L.constants_rule, 150, "family ids, serial versions, flag bits, preamble sizes, fixed offsets equal the documented values"),
         ("writer prefixes", L.prefix_rule, 20, "the constant-offset prefix of every stream writer has the documented (width, constant) sequence"),
+        ("serializer twins", lambda fa: a4_twin.obligations(fa, set(json.load(open(os.path.join(VERIF, "spec", "twin_armed.json")))["armed"])), 20, "the byte writer of every type emits the fields the (documented) stream writer emits, in the same order and under the same conditions: an image does not depend on which of the two produced it"),
         ("legacy dispatch", L.dispatch_rule, 10, "readers accept exactly the documented serial versions / types"),
         ("documented semantics", L.documented_semantics, 3, "legacy v1 emptiness rule; single-item sketches are ordered"),
         ("estimation state written", L.estimation_state_written, 8, "compact Theta / Tuple writers: truth table over (estimation mode, empty, single entry) - estimation mode always selects the 3-long preamble and theta is written exactly then"),
